@@ -655,7 +655,9 @@ impl PoolSpec {
         if err.is_none() {
             for (j, l) in st.live.iter().enumerate() {
                 if l.addr < new.addr + new.req && new.addr < l.addr + l.req {
-                    let recycled = |x: &Live| st.freed.iter().rev().find(|(a, s)| *a == x.addr && *s < x.req).map(|(_, s)| (*s, x.req));
+                    // a block may legitimately span its request rounded up to the alignment it was served with
+                    let up = |n: usize| if align > 1 { (n + align - 1) / align * align } else { n };
+                    let recycled = |x: &Live| st.freed.iter().rev().find(|(a, s)| *a == x.addr && up(*s) < x.req).map(|(_, s)| (*s, x.req));
                     let class = if !l.origin.is_empty() && !new.origin.is_empty() && l.origin != new.origin {
                         let (a, b) = if l.origin < new.origin { (l.origin, new.origin) } else { (new.origin, l.origin) };
                         format!("origin:{a}/{b}")
@@ -1851,9 +1853,9 @@ fn five_fixed_none() -> FiveLevelPoolConfig {
 fn main() {
     zverif::main_with("C07", |reg, _tier| {
         // ---- SecureMemoryPool: the pure presets first (configured alignment), then deep variants with alignment 8
-        reg.add(secure("SecureMemoryPool[medium_secure]", SecurePoolConfig::medium_secure, 0, 0, 2, 3));
-        reg.add(secure("SecureMemoryPool[large_secure]", SecurePoolConfig::large_secure, 0, 0, 2, 3));
-        reg.add(secure("SecureMemoryPool[small_secure,align=64,cache=2]", sec_small_a64, 0, 0, 2, 3));
+        reg.add(secure("SecureMemoryPool/configured-alignment[medium_secure]", SecurePoolConfig::medium_secure, 0, 0, 2, 3));
+        reg.add(secure("SecureMemoryPool/configured-alignment[large_secure]", SecurePoolConfig::large_secure, 0, 0, 2, 3));
+        reg.add(secure("SecureMemoryPool/configured-alignment[small_secure,align=64,cache=2]", sec_small_a64, 0, 0, 2, 3));
         reg.add(secure("SecureMemoryPool[small_secure,cache=1]", sec_small_c1, 0, 0, 7, 9));
         reg.add(secure("SecureMemoryPool[small_secure,cache=2]", sec_small_c2, 0, 0, 7, 9));
         reg.add(secure("SecureMemoryPool[small_secure,cache=2,zero_on_alloc]", sec_small_c2_zero, 0, 0, 6, 8));
@@ -1918,7 +1920,7 @@ fn main() {
         reg.add(five("five_level::AdaptiveFiveLevelPool[SingleThread]", FiveKind::Adaptive(Some(ConcurrencyLevel::SingleThread)), five_tiny, &f8, 4, 5));
         reg.add(five("five_level::AdaptiveFiveLevelPool[MultiThreadMutex]", FiveKind::Adaptive(Some(ConcurrencyLevel::MultiThreadMutex)), five_tiny, &f8, 4, 5));
         reg.add(five("five_level::AdaptiveFiveLevelPool[MultiThreadLockFree]", FiveKind::Adaptive(Some(ConcurrencyLevel::MultiThreadLockFree)), five_tiny, &f8, 4, 5));
-        reg.add(five("five_level::AdaptiveFiveLevelPool[ThreadLocal]", FiveKind::Adaptive(Some(ConcurrencyLevel::ThreadLocal)), five_tiny, &[8, 16, 65], 4, 5));
+        reg.add(five("five_level::ThreadLocalPool via AdaptiveFiveLevelPool[ThreadLocal]", FiveKind::Adaptive(Some(ConcurrencyLevel::ThreadLocal)), five_tiny, &[8, 16, 65], 4, 5));
         reg.add(five("five_level::AdaptiveFiveLevelPool[FixedCapacity]", FiveKind::Adaptive(Some(ConcurrencyLevel::FixedCapacity)), five_tiny, &f8, 4, 5));
 
         // ---- MemoryMappedAllocator, numa functions
